@@ -194,7 +194,7 @@ class C14(core.Check):
     def cases(self, ctx):
         r = core.rng(self.seed, "C14", "seq")
         bases = basefiles.small_set(ctx["zh"], self.work, self.seed + 14, n_chunks=(2, 7), piece=(30, 700))
-        bases += basefiles.ref_set(self.seed + 14, 3 if self.quick else 10)
+        bases += basefiles.ref_set(self.seed + 14, 8 if self.quick else 21)   # incl. another writer's layouts and zstd frame styles
         out = []
         for bi, b in enumerate(bases):
             v = zckref.decode(b["data"])
